@@ -189,7 +189,13 @@ func (c *FnCtx) packVariadic(st *State, fn *types.Func, args []*Val) []*Val {
 	st.assume(tEq(tApp("len_"+sortName(s), seq), tInt(int64(len(rest)))))
 	for i, r := range rest {
 		if r.S == SNone {
-			continue
+			if r.Typ == nil || elemSort(s) != SInt {
+				continue
+			}
+			if _, isStruct := r.Typ.Underlying().(*types.Struct); !isStruct {
+				continue
+			}
+			r = c.structToRef(st, r) // a struct passed variadically: the element is a reference to its fields
 		}
 		es := elemSort(s)
 		ev := c.coerce(r, es)
